@@ -31,3 +31,42 @@ pub proof fn thm_C02_C1(xl: real, xm: real, xr: real, yl: real, ym: real, yr: re
     L_herm_right_slope(xl, xm, yl, ym, kl, km);
     L_herm_left_slope(xm, xr, ym, yr, km, kr);
 }
+
+/// C02 / C03 as mathematics over the contracts: IF the slopes k satisfy the row equations of the tridiagonal system
+/// (residual 0), THEN the pieces built by the coefficient loop have a continuous second derivative at the knot
+/// (interior row), the prescribed second derivative at an end (SecondDeriv rows) and a continuous third derivative
+/// across the first / last interior knot (NotAKnot row together with the neighbouring interior row).
+/// What this does NOT show is that the real solve_for_k builds exactly these rows and that thomas solves them:
+/// that part is the bounded stand-in (engine S).
+pub proof fn thm_rows_are_the_conditions(x0: real, x1: real, x2: real, y0: real, y1: real, y2: real, k0: real, k1: real, k2: real, v: real)
+    requires x0 < x1, x1 < x2
+    ensures
+        res_interior(x0, x1, x2, y0, y1, y2, k0, k1, k2) == 0real ==> dd_at_left_end(x1, x2, y1, y2, k1, k2) == dd_at_right_end(x0, x1, y0, y1, k0, k1),
+        (3real * (y1 - y0) - v * (x1 - x0) * (x1 - x0) / 2real) - (2real * (x1 - x0) * k0 + (x1 - x0) * k1) == 0real ==> dd_at_left_end(x0, x1, y0, y1, k0, k1) == v,
+        (3real * (y1 - y0) + v * (x1 - x0) * (x1 - x0) / 2real) - (2real * (x1 - x0) * k1 + (x1 - x0) * k0) == 0real ==> dd_at_right_end(x0, x1, y0, y1, k0, k1) == v,
+        (res_nak_left(x0, x1, x2, y0, y1, y2, k0, k1) == 0real && res_interior(x0, x1, x2, y0, y1, y2, k0, k1, k2) == 0real) ==> ddd(x1, x2, y1, y2, k1, k2) == ddd(x0, x1, y0, y1, k0, k1),
+        (res_nak_right(x0, x1, x2, y0, y1, y2, k1, k2) == 0real && res_interior(x0, x1, x2, y0, y1, y2, k0, k1, k2) == 0real) ==> ddd(x1, x2, y1, y2, k1, k2) == ddd(x0, x1, y0, y1, k0, k1),
+{
+    L_c2_jump_is_interior_row_residual(x0, x1, x2, y0, y1, y2, k0, k1, k2);
+    L_second_deriv_left_row(x0, x1, y0, y1, k0, k1, v);
+    L_second_deriv_right_row(x0, x1, y0, y1, k0, k1, v);
+    L_not_a_knot_left_row(x0, x1, x2, y0, y1, y2, k0, k1, k2);
+    L_not_a_knot_right_row(x0, x1, x2, y0, y1, y2, k0, k1, k2);
+    let h0 = x1 - x0; let h1 = x2 - x1;
+    assert(h0 > 0real && h1 > 0real);
+    if res_interior(x0, x1, x2, y0, y1, y2, k0, k1, k2) == 0real {
+        let j = dd_at_left_end(x1, x2, y1, y2, k1, k2) - dd_at_right_end(x0, x1, y0, y1, k0, k1);
+        assert(j * h0 * h1 / 2real == 0real);
+        assert(j == 0real) by(nonlinear_arith) requires j * h0 * h1 / 2real == 0real, h0 > 0real, h1 > 0real;
+    }
+    if (3real * (y1 - y0) - v * h0 * h0 / 2real) - (2real * h0 * k0 + h0 * k1) == 0real {
+        let j = dd_at_left_end(x0, x1, y0, y1, k0, k1) - v;
+        assert(j * h0 * h0 / 2real == 0real);
+        assert(j == 0real) by(nonlinear_arith) requires j * h0 * h0 / 2real == 0real, h0 > 0real;
+    }
+    if (3real * (y1 - y0) + v * h0 * h0 / 2real) - (2real * h0 * k1 + h0 * k0) == 0real {
+        let j = v - dd_at_right_end(x0, x1, y0, y1, k0, k1);
+        assert(j * h0 * h0 / 2real == 0real);
+        assert(j == 0real) by(nonlinear_arith) requires j * h0 * h0 / 2real == 0real, h0 > 0real;
+    }
+}
